@@ -1,6 +1,8 @@
 (* Generic glue: reads "<entry-hex> <sexp>" lines, prints one sexp per line.
    Atoms are hexadecimal integers with optional leading '-'.  No logic here. *)
 open Model
+(* the model now defines Coq's [string]; keep OCaml's *)
+type string = Stdlib.String.t
 
 let rec pos_of_bits (bits : bool list) : positive =
   (* bits: most significant first, head is the leading 1 *)
